@@ -37,6 +37,11 @@ def simulated(rnd, i):
         b['objs'][-1].angular_speed = b['q']('AngularSpeed', 0)
         op = inst['ops'][2]
         _, err = outcome(lambda: Solver(b['pt']).run(b['q']('TimeInterval', op['dt'], op['dt_unit']), b['q']('TimeInterval', op['T'], op['T_unit'])))
+        if err is None and i % 2 == 0:
+            # continue in OTHER time units (and another step): the recorded axis then holds instants of mixed units
+            u1, u2 = rnd.choice(solver_gen.TIME_UNITS), rnd.choice(solver_gen.TIME_UNITS)
+            d2 = op['dt'] * rnd.choice([Fraction(1), Fraction(1, 2), Fraction(2)])
+            _, err = outcome(lambda: Solver(b['pt']).run(b['q']('TimeInterval', d2, u1), b['q']('TimeInterval', d2 * rnd.randint(2, 5), u2)))
         if err is None:
             return b
     raise Machinery('no simulated powertrain')
